@@ -137,6 +137,7 @@ func (lib *testCaseLibrary) expandSuite(suite *conformancev1.TestSuite, configCa
 	if len(protocols) == 0 {
 		protocols = allProtocols
 	}
+	expanded := map[configCase]struct{}{}
 	for _, protocol := range protocols {
 		httpVersions := suite.RelevantHttpVersions
 		if len(httpVersions) == 0 {
@@ -171,6 +172,11 @@ func (lib *testCaseLibrary) expandSuite(suite *conformancev1.TestSuite, configCa
 								ConnectVersionMode:     suite.ConnectVersionMode,
 								UseMessageReceiveLimit: suite.ReliesOnMessageReceiveLimit,
 							}
+							if _, ok := expanded[cfgCase]; ok {
+								// a relevant value was listed more than once
+								continue
+							}
+							expanded[cfgCase] = struct{}{}
 							if _, ok := configCases[cfgCase]; ok {
 								namePrefix := generateTestCasePrefix(suite, cfgCase)
 								if err := lib.expandCases(cfgCase, namePrefix, suite.TestCases); err != nil {
